@@ -88,15 +88,20 @@ RETURNS_RECEIVER = {"fit", "update", "set_params"}
 KEEP_FUNCS = {"check_series", "check_y", "check_X", "np.asarray", "np.asanyarray", "np.array",
               "np.squeeze", "np.ravel", "np.atleast_1d", "np.atleast_2d", "pd.Series",
               "pd.DataFrame", "np.transpose"}
+# functions whose result holds / yields the ELEMENTS of their arguments: the result is treated as
+# (a view of) the one tracked argument (several different tracked arguments are not understood)
+ELEMENT_FUNCS = {"enumerate", "zip", "list", "tuple", "sorted", "reversed", "iter", "set", "dict"}
 # external functions: no write through an argument, result is a new object
 EXT_PURE = {
     "int", "float", "bool", "str", "len", "range", "isinstance", "abs", "min", "max", "sum", "type",
-    "callable", "round", "enumerate", "zip", "list", "tuple",
+    "callable", "round", "hasattr", "any", "all",
     "clone", "check_random_state", "check_sp", "seasonal_decompose", "boxcox", "inv_boxcox",
     "_get_duration", "_get_freq",
     "np.isnan", "np.arange", "np.nanmedian", "np.abs", "np.log", "np.exp", "np.zeros", "np.ones",
     "np.nanmean", "np.median", "np.mean", "np.sqrt", "np.where", "np.full", "np.cos",
     "warnings.warn", "acf", "pacf",
+    "operator.sub", "operator.add", "operator.mul", "operator.truediv", "np.subtract", "np.add",
+    "np.multiply", "np.divide", "np.true_divide", "math.floor", "math.ceil", "np.isinf",
 }
 # attributes of self that hold a user-supplied callable (called like a function: no write through
 # its arguments is assumed)
@@ -125,6 +130,8 @@ class Frame:
         self.names = {}
         self.depth = depth
         self.retvar = None
+        self.funcvals = {}      # local name -> set of dotted external functions it may hold
+        self.selfnames = {}     # local name -> attribute of self it was bound to
 
 
 class MethodTranslator:
@@ -169,7 +176,8 @@ class MethodTranslator:
         return len(self.fns) - 1
 
     def cond_(self, node, fr):
-        self.conds.append((_u(node), node, fr.depth == 0))
+        self.conds.append((_u(node), node, fr.depth == 0,
+                           {k: v for k, v in fr.selfnames.items() if v}))
         return len(self.conds) - 1
 
     def cnt_(self, src):
@@ -183,7 +191,33 @@ class MethodTranslator:
             return []
         return [("loop", self.cnt_("maybe: " + why), pre)]
 
+    @staticmethod
+    def oneof(kinds):
+        """the value is one of several objects: collapse to a single kind where possible"""
+        flat = []
+        for k in kinds:
+            for x in (k[1] if k[0] == "oneof" else (k,)):
+                if x not in flat:
+                    flat.append(x)
+        tracked = [k for k in flat if k[0] != "fresh"]
+        if not tracked:
+            return ("fresh",)
+        if len(flat) == 1:
+            return flat[0]
+        return ("oneof", tuple(flat))
+
+    def choice(self, kinds, mk, node):
+        """`mk(kind)` for one of the kinds, picked by a fresh opaque condition (the analysis
+        joins over both outcomes: the value may be any of them)"""
+        if len(kinds) == 1:
+            return mk(kinds[0])
+        k = len(self.conds)
+        self.conds.append(("<which of the objects `%s` is>" % _u(node)[:40], None, False, {}))
+        return [("if", k, mk(kinds[0]), self.choice(kinds[1:], mk, node))]
+
     def write_through(self, kind, node):
+        if kind[0] == "oneof":
+            return self.choice(list(kind[1]), lambda k: self.write_through(k, node), node)
         if kind[0] == "alias":
             return [("write", kind[1], self.fn_(_u(node)[:70]))]
         if kind[0] == "self":
@@ -194,6 +228,8 @@ class MethodTranslator:
 
     def bind(self, fr, name, kind, node):
         x = self.var(fr, name)
+        if kind[0] == "oneof":
+            return self.choice(list(kind[1]), lambda k: self.bind(fr, name, k, node), node)
         if kind[0] == "alias":
             return [("alias", x, kind[1])]
         if kind[0] == "self":
@@ -254,7 +290,7 @@ class MethodTranslator:
             else:
                 self.bad(call, "missing argument %s" % p)
         nf.retvar = self.newvar(nf, "<return>")
-        pre += self.block(callee.body, nf, True)
+        pre += self.block(callee.body, nf, "func")
         return pre, ("alias", nf.retvar)
 
     # ---- expressions: (statements for the side effects, kind of the value)
@@ -275,7 +311,7 @@ class MethodTranslator:
                 return [], ("self",)
             if e.id in fr.names:
                 return [], ("alias", fr.names[e.id])
-            if e.id in self.module_names or e.id in EXT_PURE or e.id in (
+            if e.id in self.module_names or e.id in EXT_PURE or e.id in ELEMENT_FUNCS or e.id in (
                     "True", "False", "None", "ValueError", "TypeError", "NotImplementedError"):
                 return [], F
             self.bad(e, "name of unknown origin")
@@ -288,7 +324,7 @@ class MethodTranslator:
                 return pre, ("self",)
             if e.attr in META_ATTRS:
                 return pre, F
-            if e.attr in VIEW_ATTRS or k[0] == "self":
+            if e.attr in VIEW_ATTRS or k[0] in ("self", "oneof"):
                 return pre, k
             if k[0] == "fresh":
                 return pre, F
@@ -317,19 +353,15 @@ class MethodTranslator:
             pre, _ = self.ev(e.test, fr)
             qa, ka = self.ev(e.body, fr)
             qb, kb = self.ev(e.orelse, fr)
-            k = ka if ka == kb else ("mixed",)
             return pre + self.maybe(qa, "conditional expression") + self.maybe(
-                qb, "conditional expression"), k
+                qb, "conditional expression"), self.oneof([ka, kb])
         if isinstance(e, (ast.List, ast.Tuple, ast.Set)):
+            # a container is treated as (a view of) every tracked object it holds
             pre, kinds = self.ev_all(e.elts, fr)
-            if any(k[0] != "fresh" for k in kinds):
-                self.bad(e, "container holding a tracked object")
-            return pre, F
+            return pre, self.oneof(kinds + [F])
         if isinstance(e, ast.Dict):
             pre, kinds = self.ev_all([x for x in list(e.keys) + list(e.values) if x is not None], fr)
-            if any(k[0] != "fresh" for k in kinds):
-                self.bad(e, "container holding a tracked object")
-            return pre, F
+            return pre, self.oneof(kinds + [F])
         if isinstance(e, ast.Lambda):
             a = e.args
             if a.vararg or a.kwarg or a.kwonlyargs or a.defaults:
@@ -342,22 +374,44 @@ class MethodTranslator:
             q, _ = self.ev(e.body, fr)
             fr.names = saved
             return self.maybe(pre + q, "lambda body") if q else [], F
-        if isinstance(e, ast.ListComp):
-            if len(e.generators) != 1 or e.generators[0].ifs or e.generators[0].is_async \
-                    or not isinstance(e.generators[0].target, ast.Name):
-                self.bad(e, "comprehension shape")
-            g = e.generators[0]
-            pre, ki = self.ev(g.iter, fr)
+        if isinstance(e, (ast.ListComp, ast.GeneratorExp, ast.SetComp)):
+            # a loop that collects NEW values (collecting tracked objects is not understood)
             saved = dict(fr.names)
-            x = self.newvar(fr, g.target.id, "<comp>.")
-            body = [("alias", x, ki[1])] if ki[0] == "alias" else (
-                [("selfref", x)] if ki[0] == "self" else
-                [("fresh", x, self.fn_("element of " + _u(g.iter)[:50]))])
-            q, k = self.ev(e.elt, fr)
+            pre0, ki0 = self.ev(e.generators[0].iter, fr)
+            src = {}                # comprehension variable -> kind of what it iterates over
+            res = []
+
+            def gen(gs, first):
+                g = gs[0]
+                if g.is_async:
+                    self.bad(e, "async comprehension")
+                if first:
+                    pre, ki = [], ki0
+                else:
+                    pre, ki = self.ev(g.iter, fr)
+                names = [n.id for n in ast.walk(g.target) if isinstance(n, ast.Name)]
+                if ki[0] == "alias" and ki[1] in src:
+                    ki = src[ki[1]]
+                for nm in names:
+                    fr.names.pop(nm, None)
+                    src[self.newvar(fr, nm, "<comp>.")] = ki
+                body = self.bind_target(fr, g.target, ki, g.iter)
+                for c in g.ifs:
+                    q, _ = self.ev(c, fr)
+                    body += q
+                if len(gs) > 1:
+                    body += gen(gs[1:], False)
+                else:
+                    q, k = self.ev(e.elt, fr)
+                    # a collection of elements of X is treated as (a view of) X
+                    ks = k[1] if k[0] == "oneof" else (k,)
+                    res.append(self.oneof([src[x[1]] if x[0] == "alias" and x[1] in src else x
+                                           for x in ks] + [F]))
+                    body += q
+                return pre + [("loop", self.cnt_("comprehension over " + _u(g.iter)[:50]), body)]
+            out = pre0 + gen(list(e.generators), True)
             fr.names = saved
-            if k[0] != "fresh":
-                self.bad(e, "comprehension collecting tracked objects")
-            return pre + [("loop", self.cnt_("comprehension over " + _u(g.iter)[:50]), body + q)], F
+            return out, res[0]
         if isinstance(e, ast.Call):
             return self.ev_call(e, fr)
         self.bad(e, "expression form not understood")
@@ -376,6 +430,16 @@ class MethodTranslator:
         f = c.func
         d = _dotted(f)
         root = d.split(".")[0] if d else None
+        # ---- getattr(obj, "name"[, default]) == obj.name
+        if d == "getattr" and "getattr" not in fr.names and len(c.args) in (2, 3) \
+                and not c.keywords:
+            pre, kinds = self.ev_all(c.args, fr)
+            ko = kinds[0]
+            if len(c.args) == 3 and kinds[2][0] != "fresh":
+                self.bad(c, "getattr default is a tracked object")
+            if ko[0] != "fresh":
+                return pre, ko          # conservatively: (a part of) the object itself
+            return pre, F
         # ---- plain function / external dotted function
         if d and root != "self" and root not in fr.names:
             if isinstance(f, ast.Name) and f.id in self.module_funcs:
@@ -384,15 +448,23 @@ class MethodTranslator:
             if d in KEEP_FUNCS:
                 if not c.args:
                     self.bad(c, "KEEP function without positional argument")
-                return pre, kinds[0] if kinds[0][0] != "mixed" else self.bad(c, "mixed argument")
+                return pre, kinds[0]
+            if d in ELEMENT_FUNCS:
+                return pre, self.oneof(kinds + [F])
             if d in EXT_PURE:
                 return pre, F
             if isinstance(f, ast.Name) and f.id[:1].isupper() and f.id in self.module_names:
-                # constructor of an imported class: must not be handed a tracked data object
-                if any(k[0] == "alias" for k in kinds):
-                    self.bad(c, "constructor receives a tracked object")
-                return pre, F
+                # constructor of an imported class: the new object may keep (a view of) what it
+                # is handed - treated as a view of its tracked arguments
+                return pre, self.oneof(kinds + [F])
             self.bad(c, "call of a function not in KEEP_FUNCS / EXT_PURE")
+        if isinstance(f, (ast.Name, ast.Subscript, ast.IfExp)):
+            # dispatch through a local name / a literal table of external functions
+            fv = self.func_values(f, fr)
+            if fv and all(x in EXT_PURE for x in fv):
+                pre0, _ = self.ev(f, fr)
+                pre, _ = self.ev_args(c, fr)
+                return pre0 + pre, F
         if not isinstance(f, ast.Attribute):
             self.bad(c, "call form not understood")
         m = f.attr
@@ -429,54 +501,90 @@ class MethodTranslator:
         self.bad(c, "method `%s` not in PURE_METHODS / VIEW_METHODS / MUTATORS" % m)
 
     # ---- statements
-    def has_return(self, stmts):
-        return any(isinstance(n, ast.Return) for s in stmts for n in ast.walk(s))
+    @staticmethod
+    def _contains(stmts, types):
+        """does a statement list contain one of `types`, not counting nested loops / lambdas"""
+        todo = list(stmts)
+        while todo:
+            n = todo.pop()
+            if isinstance(n, types):
+                return True
+            if isinstance(n, (ast.For, ast.While, ast.Lambda, ast.FunctionDef)):
+                continue
+            todo.extend(ast.iter_child_nodes(n))
+        return False
+
+    def ret_bind(self, fr, kind, node):
+        x = fr.retvar
+        if kind[0] == "oneof":
+            return self.choice(list(kind[1]), lambda k: self.ret_bind(fr, k, node), node)
+        if kind[0] == "alias":
+            return [("alias", x, kind[1])]
+        if kind[0] == "self":
+            return [("selfref", x)]
+        if kind[0] == "fresh":
+            return [("fresh", x, self.fn_("return " + _u(node)[:60]))]
+        self.bad(node, "returns one of several objects")
 
     def block(self, stmts, fr, tail):
+        """`tail`: what ends the enclosing construct right after this block -
+        "func" (the block is in tail position of the function body: `return` / `raise` end it),
+        "loop" (tail position of a loop body: `continue` ends the iteration), or None.
+        Guard clauses: an `if` that contains such a terminator and is followed by more statements
+        is translated as `if c: body; rest  else: orelse; rest` - every path keeps exactly the
+        statements it runs in the source."""
         out = []
         for i, s in enumerate(stmts):
             last = i == len(stmts) - 1
+            rest = stmts[i + 1:]
             if isinstance(s, ast.Expr) and isinstance(s.value, ast.Constant):
                 continue                                   # docstring
             if isinstance(s, ast.Pass):
                 continue
             if isinstance(s, ast.Raise):
-                # over-approximation: the model carries on (it may only do MORE than the code)
+                if tail == "func":
+                    # the call ends here and hands nothing of the caller back
+                    out.append(("fresh", fr.retvar, self.fn_("raise: no result")))
+                    return out
+                # elsewhere (loop bodies): over-approximation, the model carries on (it may only
+                # do MORE than the code)
                 continue
+            if isinstance(s, ast.Continue):
+                if tail != "loop":
+                    self.bad(s, "continue that does not end the loop body")
+                return out
             if isinstance(s, ast.Return):
-                if not (tail and last):
-                    self.bad(s, "return that is not in tail position")
+                if tail != "func":
+                    self.bad(s, "return inside a loop")
                 if s.value is not None:
+                    if isinstance(s.value, ast.IfExp):
+                        return out + self.block([self.desugar_ifexp(s, s.value, None)], fr, tail)
                     pre, k = self.ev(s.value, fr)
-                    out += pre
-                    x = fr.retvar
-                    if k[0] == "alias":
-                        out.append(("alias", x, k[1]))
-                    elif k[0] == "self":
-                        out.append(("selfref", x))
-                    elif k[0] == "fresh":
-                        out.append(("fresh", x, self.fn_("return " + _u(s.value)[:60])))
-                    else:
-                        self.bad(s, "returns one of several objects")
-                continue
+                    out += pre + self.ret_bind(fr, k, s.value)
+                else:
+                    out.append(("fresh", fr.retvar, self.fn_("return None")))
+                return out                                 # anything after it is dead code
             if isinstance(s, ast.If):
-                if not (tail and last) and (self.has_return(s.body) or self.has_return(s.orelse)):
-                    self.bad(s, "early return")
+                enders = (ast.Return, ast.Raise) if tail == "func" else (
+                    (ast.Continue,) if tail == "loop" else ())
                 pre, _ = self.ev(s.test, fr)
                 k = self.cond_(s.test, fr)
-                a = self.block(s.body, fr, tail and last)
-                b = self.block(s.orelse, fr, tail and last)
+                if not last and enders and self._contains([s], enders):
+                    a = self.block(list(s.body) + rest, fr, tail)
+                    b = self.block(list(s.orelse) + rest, fr, tail)
+                    return out + pre + [("if", k, a, b)]
+                a = self.block(s.body, fr, tail if last else None)
+                b = self.block(s.orelse, fr, tail if last else None)
                 out += pre + [("if", k, a, b)]
+                if last and tail == "func":
+                    return out          # each branch ends the function itself (return / fall off)
                 continue
             if isinstance(s, ast.For):
-                if s.orelse or self.has_return([s]) or any(
-                        isinstance(n, (ast.Break, ast.Continue)) for n in ast.walk(s)):
-                    self.bad(s, "for-else / break / continue / return inside a loop")
-                if not isinstance(s.target, ast.Name):
-                    self.bad(s, "loop target is not a name")
+                if s.orelse:
+                    self.bad(s, "for-else")
                 pre, ki = self.ev(s.iter, fr)
-                k = self.cnt_("for %s in %s" % (s.target.id, _u(s.iter)[:50]))
-                body = self.bind(fr, s.target.id, ki, s.iter) + self.block(s.body, fr, False)
+                k = self.cnt_("for %s in %s" % (_u(s.target)[:20], _u(s.iter)[:50]))
+                body = self.bind_target(fr, s.target, ki, s.iter) + self.block(s.body, fr, "loop")
                 out += pre + [("loop", k, body)]
                 continue
             if isinstance(s, ast.Assert):
@@ -494,11 +602,97 @@ class MethodTranslator:
             if isinstance(s, ast.Assign):
                 if len(s.targets) != 1:
                     self.bad(s, "chained assignment")
+                if isinstance(s.value, ast.IfExp) and isinstance(s.targets[0], ast.Name):
+                    # x = a if c else b   ==   if c: x = a  else: x = b
+                    out += self.block([self.desugar_ifexp(s, s.value, s.targets[0])], fr, None)
+                    continue
+                t0 = s.targets[0]
+                if isinstance(t0, (ast.Tuple, ast.List)) and isinstance(s.value, (ast.Tuple, ast.List)) \
+                        and len(t0.elts) == len(s.value.elts) \
+                        and not any(isinstance(x, ast.Starred) for x in t0.elts + s.value.elts):
+                    # a, b = e1, e2: all right-hand sides first (temporaries), then the targets
+                    tmps = []
+                    for j, v in enumerate(s.value.elts):
+                        pre, k = self.ev(v, fr)
+                        nm = "<tmp%d>" % j
+                        fr.names.pop(nm, None)
+                        out += pre + self.bind(fr, nm, k, v)
+                        tmps.append(("alias", fr.names[nm]))
+                    for x, k in zip(t0.elts, tmps):
+                        out += self.assign_target(x, k, s, fr, aug=False)
+                    continue
                 pre, k = self.ev(s.value, fr)
-                out += pre + self.assign_target(s.targets[0], k, s, fr, aug=False)
+                out += pre + self.assign_target(t0, k, s, fr, aug=False)
                 continue
             self.bad(s, "statement form not understood")
+        if tail == "func":
+            out.append(("fresh", fr.retvar, self.fn_("falls off the end: returns None")))
         return out
+
+    @staticmethod
+    def desugar_ifexp(s, e, target):
+        """`x = a if c else b` / `return a if c else b` as an if statement"""
+        def leaf(v):
+            n = ast.Return(value=v) if target is None else ast.Assign(targets=[target], value=v)
+            return ast.copy_location(n, s)
+        n = ast.If(test=e.test, body=[leaf(e.body)], orelse=[leaf(e.orelse)])
+        return ast.fix_missing_locations(ast.copy_location(n, s))
+
+    def bind_target(self, fr, t, kind, node):
+        """bind a loop / assignment target: a name, or a tuple of names (every element may be
+        (part of) the object that is unpacked)"""
+        if isinstance(t, ast.Name):
+            return self.bind(fr, t.id, kind, node)
+        if isinstance(t, (ast.Tuple, ast.List)):
+            out = []
+            for x in t.elts:
+                if isinstance(x, ast.Starred):
+                    self.bad(t, "starred target")
+                out += self.bind_target(fr, x, kind, node)
+            return out
+        self.bad(t, "target is not a name or a tuple of names")
+
+    def func_values(self, e, fr):
+        """dotted external functions an expression may evaluate to (None: not a function value)"""
+        d = _dotted(e)
+        if d and d.split(".")[0] in self.module_names and d.split(".")[0] not in fr.names:
+            return {d}
+        if isinstance(e, ast.Name) and e.id in fr.funcvals:
+            return set(fr.funcvals[e.id])
+        if isinstance(e, ast.IfExp):
+            a, b = self.func_values(e.body, fr), self.func_values(e.orelse, fr)
+            return None if a is None or b is None else a | b
+        if isinstance(e, ast.Dict) and e.values:
+            vs = [self.func_values(v, fr) for v in e.values]
+            return None if any(v is None for v in vs) else set().union(*vs)
+        if isinstance(e, ast.Subscript):
+            return self.func_values(e.value, fr)         # table[key]: one of the table's values
+        if isinstance(e, ast.Call) and isinstance(e.func, ast.Attribute) and e.func.attr == "get" \
+                and len(e.args) in (1, 2) and not e.keywords:
+            t = self.func_values(e.func.value, fr)       # table.get(key[, default])
+            d = self.func_values(e.args[1], fr) if len(e.args) == 2 else None
+            if t is None or (len(e.args) == 2 and d is None) or len(e.args) == 1:
+                return None                              # (without default the result may be None)
+            return t | d
+        return None
+
+    def note_value(self, fr, name, value):
+        """remember simple facts about a local: which external functions it may hold (dispatch
+        tables), which attribute of self it names"""
+        if value is None:
+            fr.funcvals.pop(name, None)
+            fr.selfnames.pop(name, None)
+            return
+        fv = self.func_values(value, fr)
+        if fv is not None:
+            fr.funcvals[name] = fr.funcvals.get(name, set()) | fv
+        else:
+            fr.funcvals.pop(name, None)
+        if isinstance(value, ast.Attribute) and isinstance(value.value, ast.Name) \
+                and value.value.id == "self" and fr.selfnames.get(name, value.attr) == value.attr:
+            fr.selfnames[name] = value.attr
+        else:
+            fr.selfnames[name] = None
 
     def assign_target(self, t, kind, s, fr, aug):
         if isinstance(t, ast.Name):
@@ -509,6 +703,7 @@ class MethodTranslator:
                 if t.id not in fr.names:
                     self.bad(s, "augmented assignment to an unbound name")
                 return [("write", fr.names[t.id], self.fn_(_u(s)[:70]))]
+            self.note_value(fr, t.id, getattr(s, "value", None))
             return self.bind(fr, t.id, kind, s.value)
         if isinstance(t, ast.Subscript):
             pre, kc = self.ev(t.value, fr)
@@ -519,6 +714,13 @@ class MethodTranslator:
                 return [("selfw", self.fn_(_u(s)[:70]))]
             pre, kc = self.ev(t.value, fr)
             return pre + self.write_through(kc, s)
+        if isinstance(t, (ast.Tuple, ast.List)) and not aug:
+            out = []
+            for x in t.elts:
+                if isinstance(x, ast.Starred):
+                    self.bad(s, "starred target")
+                out += self.assign_target(x, kind, s, fr, aug=False)
+            return out
         self.bad(s, "assignment target not understood")
 
     def translate(self):
@@ -537,7 +739,7 @@ class MethodTranslator:
         for p in params[1:]:
             self.newvar(fr, p)            # every argument starts as the caller's object
         fr.retvar = self.newvar(fr, "<return>")
-        body = self.block(self.fn.body, fr, True)
+        body = self.block(self.fn.body, fr, "func")
         return body, fr.retvar
 
 
@@ -606,13 +808,18 @@ def extract(repo):
     return out
 
 
-def eval_cond(node, params, frame, top=True):
+def eval_cond(node, params, frame, top=True, selfnames=None):
     """value of a branch condition for a concrete estimator / input container: True / False, or
     None when it depends on the data (or is not understood).  `top`: the condition belongs to the
     method's own body (only there `Z` is known to be the argument)."""
+    selfnames = selfnames or {}
+
     def val(n):
         if isinstance(n, ast.Constant):
             return ("v", n.value)
+        if isinstance(n, ast.Name) and n.id in selfnames:        # method = self.method
+            a = selfnames[n.id]
+            return ("v", params[a]) if a in params else None
         if isinstance(n, ast.Attribute) and isinstance(n.value, ast.Name) and n.value.id == "self":
             if n.attr in params:
                 return ("v", params[n.attr])
@@ -680,7 +887,7 @@ def translate(repo):
     for m in ms:
         L.append("  (* %s.%s  (%s)" % (m["cls"], m["method"], m["file"]))
         L.append("     variables: %s" % ", ".join("%d = %s" % (i, v) for i, v in enumerate(m["vars"])))
-        for i, (src, _, _) in enumerate(m["conds"]):
+        for i, (src, _, _, _) in enumerate(m["conds"]):
             L.append("     cond %d: %s" % (i, src.replace("*)", "* )").replace("(*", "( *")[:100]))
         L.append("  *)")
         L.append("  Definition %s : method :=" % coq_ident(m["name"]))
